@@ -2207,8 +2207,12 @@ class Workflow(Trellis):
     # Glob patterns
     #
 
-    def nglob_registrations(self) -> Iterator[tuple[int, NamedGlob, Step]]:
+    def nglob_registrations(
+        self, *, include_detached: bool = False
+    ) -> Iterator[tuple[int, NamedGlob, Step]]:
         """Iterate over the patterns registered by all attached steps, with their context.
+
+        The patterns of detached steps are skipped unless `include_detached` is set.
 
         Yields
         ------
@@ -2220,10 +2224,9 @@ class Workflow(Trellis):
         step
             The step that registered the pattern.
         """
-        sql = (
-            "SELECT node.i, label, nglob.i, data FROM node "
-            "JOIN nglob ON node.i = nglob.node WHERE NOT node.detached"
-        )
+        sql = "SELECT node.i, label, nglob.i, data FROM node JOIN nglob ON node.i = nglob.node"
+        if not include_detached:
+            sql += " WHERE NOT node.detached"
         for node_i, label, nglob_i, data in self.db.execute(sql):
             yield (
                 nglob_i,
